@@ -204,9 +204,82 @@ pub mod atomic {
             self.0.store(v, o);
             s.post(&ev(a, "store", o, None, v as u64, true, f));
         }
+        #[track_caller]
+        #[inline]
+        pub fn swap(&self, v: bool, o: Ordering) -> bool {
+            let Some(s) = sink() else {
+                return self.0.swap(v, o);
+            };
+            let (a, f) = (self as *const _ as usize, Location::caller().file());
+            let mut e = ev(a, "swap", o, None, 0, true, f);
+            e.args[0] = v as u64;
+            s.pre(&e);
+            let r = self.0.swap(v, o);
+            e.val = r as u64;
+            s.post(&e);
+            r
+        }
+        #[track_caller]
+        #[inline]
+        pub fn fetch_or(&self, v: bool, o: Ordering) -> bool {
+            let Some(s) = sink() else {
+                return self.0.fetch_or(v, o);
+            };
+            let (a, f) = (self as *const _ as usize, Location::caller().file());
+            let mut e = ev(a, "fetch_or", o, None, 0, true, f);
+            e.args[0] = v as u64;
+            s.pre(&e);
+            let r = self.0.fetch_or(v, o);
+            e.val = r as u64;
+            s.post(&e);
+            r
+        }
+        #[track_caller]
+        #[inline]
+        pub fn fetch_and(&self, v: bool, o: Ordering) -> bool {
+            let Some(s) = sink() else {
+                return self.0.fetch_and(v, o);
+            };
+            let (a, f) = (self as *const _ as usize, Location::caller().file());
+            let mut e = ev(a, "fetch_and", o, None, 0, true, f);
+            e.args[0] = v as u64;
+            s.pre(&e);
+            let r = self.0.fetch_and(v, o);
+            e.val = r as u64;
+            s.post(&e);
+            r
+        }
+        #[track_caller]
+        #[inline]
+        pub fn compare_exchange(
+            &self,
+            cur: bool,
+            new: bool,
+            ok: Ordering,
+            fail: Ordering,
+        ) -> Result<bool, bool> {
+            let Some(s) = sink() else {
+                return self.0.compare_exchange(cur, new, ok, fail);
+            };
+            let (a, f) = (self as *const _ as usize, Location::caller().file());
+            let mut e = ev(a, "cas", ok, Some(fail), 0, true, f);
+            e.args[0] = new as u64;
+            s.pre(&e);
+            let r = self.0.compare_exchange(cur, new, ok, fail);
+            e.ok = r.is_ok();
+            e.val = match r {
+                Ok(p) | Err(p) => p as u64,
+            };
+            s.post(&e);
+            r
+        }
         #[inline]
         pub fn get_mut(&mut self) -> &mut bool {
             self.0.get_mut()
+        }
+        #[inline]
+        pub fn into_inner(self) -> bool {
+            self.0.into_inner()
         }
     }
 
@@ -227,6 +300,36 @@ pub mod atomic {
             let v = self.0.load(o);
             s.post(&ev(a, "load", o, None, v, true, f));
             v
+        }
+        #[track_caller]
+        #[inline]
+        pub fn store(&self, v: u64, o: Ordering) {
+            let Some(s) = sink() else {
+                return self.0.store(v, o);
+            };
+            let (a, f) = (self as *const _ as usize, Location::caller().file());
+            s.pre(&ev(a, "store", o, None, v, true, f));
+            self.0.store(v, o);
+            s.post(&ev(a, "store", o, None, v, true, f));
+        }
+        #[track_caller]
+        #[inline]
+        pub fn fetch_sub(&self, d: u64, o: Ordering) -> u64 {
+            let Some(s) = sink() else {
+                return self.0.fetch_sub(d, o);
+            };
+            let (a, f) = (self as *const _ as usize, Location::caller().file());
+            let mut e = ev(a, "fetch_sub", o, None, 0, true, f);
+            e.args[0] = d;
+            s.pre(&e);
+            let v = self.0.fetch_sub(d, o);
+            e.val = v;
+            s.post(&e);
+            v
+        }
+        #[inline]
+        pub fn get_mut(&mut self) -> &mut u64 {
+            self.0.get_mut()
         }
         #[track_caller]
         #[inline]
